@@ -8,12 +8,16 @@ Follows conn.go:
   * `Event.take`    ↔ `(*Conn).waitResponse`, branch `id == rid`: the 8 header bytes are skipped, the
                       read lock stays with the caller (returned as `lock`), `c.leave()`.
   * `Event.yield`   ↔ branch "someone else's response": `c.rlock.Unlock()` and retry.
-  * `Event.lone`    ↔ branch `c.concurrency() == 1`: `io.ErrNoProgress`, read lock released, the
-                      conn stays open and the foreign frame stays where it is.
+  * `Event.lone`    ↔ branch `c.concurrency() == 1`: `io.ErrNoProgress`, the conn is closed (since /repo bb4e500;
+                      before, it stayed open with the foreign frame in place), read lock released.
   * `Event.peekErr` ↔ `peekResponseSizeAndID` failed (deadline, EOF, closed): `c.conn.Close()`.
+  * `Event.close`   ↔ `(*Conn).Close` called by the application at any moment (every pending and later read or
+                      write on the socket fails; what is already in the read buffer can still be taken).
   * `Event.finish`  ↔ the end of `(*Conn).do` (the `read` closure ran, `lock.Unlock()`), of
                       `ApiVersions` (deferred unlock) and `(*Batch).close` (the Batch held the lock since
-                      `ReadBatchWith`): body parsed / Kafka error code / any other error (conn closed).
+                      `ReadBatchWith`): body parsed / Kafka error code / any other error — the conn is closed
+                      and what is left of the response in the read buffer is dropped (`abortRead`, since /repo
+                      248476c, finding C06-D30): `rdead`, after which nothing can be taken, peeked or yielded.
 
 The response side of the socket is the list `stream` of frames the broker sends, in the order it
 sends them — ANY list: any order of correlation ids, duplicates, ids never issued.  Timing is free:
@@ -62,6 +66,7 @@ inductive Event
   | lone (seq : Nat) (seen : Nat)
   | peekErr (seq : Nat)
   | finish (seq : Nat) (o : Body)
+  | close                                   -- the application calls (*Conn).Close while calls are in flight
   deriving DecidableEq, Repr
 
 structure State where
@@ -71,9 +76,12 @@ structure State where
   consumed : Nat              -- number of frames consumed so far (ghost: position in the original stream)
   rlock : Option Nat          -- seq of the holder of c.rlock (between take and finish)
   closed : Bool
+  /-- the read side is dead: the net.Conn was closed AND nothing of what was read from it is left in the read buffer
+      (`abortRead` after an unreadable body, or a failed `Peek`): every later `Peek` fails -/
+  rdead : Bool
 
 def init (stream : List Frame) : State :=
-  { nextSeq := 0, calls := fun _ => none, stream := stream, consumed := 0, rlock := none, closed := false }
+  { nextSeq := 0, calls := fun _ => none, stream := stream, consumed := 0, rlock := none, closed := false, rdead := false }
 
 def upd (m : Nat → Option Call) (k : Nat) (v : Call) : Nat → Option Call :=
   fun i => if i = k then some v else m i
@@ -95,27 +103,27 @@ def step (s : State) : Event → Option State
     else if ok then some { s with nextSeq := seq, calls := upd s.calls seq ⟨tag, .waiting⟩ }
     else some { s with nextSeq := seq, calls := upd s.calls seq ⟨tag, .done .err⟩, closed := true }
   | .take seq =>
-    match s.rlock, statusOf s seq, s.stream with
-    | none, some .waiting, f :: rest =>
+    match s.rdead, s.rlock, statusOf s seq, s.stream with
+    | false, none, some .waiting, f :: rest =>
       if f.id = wire seq then
         some { s with rlock := some seq, stream := rest, consumed := s.consumed + 1,
                       calls := setStatus s seq (.reading s.consumed f) }
       else none
-    | _, _, _ => none
+    | _, _, _, _ => none
   | .yield seq seen =>
-    match s.rlock, statusOf s seq, s.stream with
-    | none, some .waiting, f :: _ => if f.id = seen ∧ seen ≠ wire seq then some s else none
-    | _, _, _ => none
+    match s.rdead, s.rlock, statusOf s seq, s.stream with
+    | false, none, some .waiting, f :: _ => if f.id = seen ∧ seen ≠ wire seq then some s else none
+    | _, _, _, _ => none
   | .lone seq seen =>
-    match s.rlock, statusOf s seq, s.stream with
-    | none, some .waiting, f :: _ =>
+    match s.rdead, s.rlock, statusOf s seq, s.stream with
+    | false, none, some .waiting, f :: _ =>
       if f.id = seen ∧ seen ≠ wire seq ∧ aloneWaiting s seq then
-        some { s with calls := setStatus s seq (.done .err) }
+        some { s with calls := setStatus s seq (.done .err), closed := true }
       else none
-    | _, _, _ => none
+    | _, _, _, _ => none
   | .peekErr seq =>
     match s.rlock, statusOf s seq with
-    | none, some .waiting => some { s with calls := setStatus s seq (.done .err), closed := true }
+    | none, some .waiting => some { s with calls := setStatus s seq (.done .err), closed := true, rdead := true }
     | _, _ => none
   | .finish seq o =>
     match s.rlock, statusOf s seq with
@@ -124,9 +132,10 @@ def step (s : State) : Event → Option State
         match o with
         | .ok => some { s with rlock := none, calls := setStatus s seq (.done (.resp pos f)) }
         | .kafka => some { s with rlock := none, calls := setStatus s seq (.done (.kafkaErr pos f)) }
-        | .io => some { s with rlock := none, calls := setStatus s seq (.done .err), closed := true }
+        | .io => some { s with rlock := none, calls := setStatus s seq (.done .err), closed := true, rdead := true }
       else none
     | _, _ => none
+  | .close => some { s with closed := true }
 
 def runFrom : State → List Event → Option State
   | s, [] => some s
